@@ -121,7 +121,7 @@ def ensure_makefile():
             f.write(listing)
 
 
-def make_target(target, timeout=900):
+def make_target(target, timeout=420):
     ensure_makefile()
     return run(["make", "-j", str(NCPU), target], timeout, cwd=COQ)
 
